@@ -1473,6 +1473,17 @@ def build_case(rng, kind, spec, exp, sel, level, extra_params=None, rule=None, e
     params = dict(w.params)
     if extra_params:
         extra_params = dict(extra_params)
+        local_kind = extra_params.pop("__template_local__", None)
+        if local_kind:
+            set_names = [x.split()[2] for x in w.sets]
+            if local_kind == "set" and set_names:
+                extra_params[rng.choice(set_names)] = 8          # a {% set %} variable the writer already uses for a value
+            else:
+                nm = rng.choice(["index_count", "search_clients", "i", "n"])
+                binder = {"set": "{%% set %s = 3 %%}{%% if %s %%}{%% endif %%}", "for": "{%% for %s in [1, 2] %%}{%% if %s %%}{%% endif %%}{%% endfor %%}",
+                          "macro-argument": "{%% macro local_helper(%s) %%}{{ %s }}{%% endmacro %%}", "with": "{%% with %s = 1 %%}{%% if %s %%}{%% endif %%}{%% endwith %%}"}[local_kind]
+                files["track.json"] = (binder % (nm, nm)) + files["track.json"]
+                extra_params[nm] = 8
         ref = extra_params.pop("__reference__", None)
         if ref:
             files["track.json"] = "{% if " + ref + " is defined %}{# refers to a reserved name #}{% endif %}" + files["track.json"]
@@ -1759,6 +1770,12 @@ def v_unused_param(rng, spec, params):
     params["never_" + rng.choice(["used", "referenced", "x"])] = rng.choice([1, "v", True])
 
 
+def v_param_named_like_template_local(rng, spec, params):
+    """the supplied name is one the template binds itself ({% set %}, loop variable, macro argument): it is never read from
+    the render context, so it is as unused as an unknown name"""
+    params["__template_local__"] = rng.choice(["set", "for", "macro-argument", "with"])
+
+
 def v_reserved_param(rng, spec, params):
     from esrally.track import loader
 
@@ -1880,6 +1897,7 @@ VIOLATIONS = [
     ("none-of-challenge-challenges-schedule", v_none_defined, SYN),
     ("several-of-challenge-challenges-schedule", v_multiple_defined, SYN),
     ("unused-track-parameter", v_unused_param, CFG),
+    ("unused-track-parameter-named-like-a-template-local", v_param_named_like_template_local, CFG),
     ("reserved-track-parameter", v_reserved_param, CFG),
     ("version-too-old", v_version(1), RERR),
     ("version-too-new", v_version(3), RERR),
@@ -2351,6 +2369,194 @@ def run_param_scopes(ctx, case):
 
 
 # ---------------------------------------------------------------------------------------------
+# param_accounting stream: which supplied parameter names a track with template-local names accepts
+# ---------------------------------------------------------------------------------------------
+ACC_NAMES = ["index_count", "clients", "i", "n", "bulk_size", "x", "loop", "shards"]
+ACC_MACROS = ["mk_name", "helper"]
+ACC_IMPORTS = ["tm", "lib"]
+
+
+def gen_stmts(rng, depth, allow_import):
+    out = []
+    for _ in range(rng.choice([1, 2, 3, 4]) if depth else rng.choice([2, 3, 4, 5, 6])):
+        k = rng.choice(["read", "read", "set", "set", "for", "macro", "with"] + (["import"] if allow_import and depth == 0 else []))
+        names = lambda lo, hi: rng.sample(ACC_NAMES, rng.randrange(lo, hi + 1))
+        if k == "read":
+            out.append(["read", rng.choice(ACC_NAMES + ACC_MACROS[:1])])
+        elif k == "set":
+            out.append(["set", rng.choice(ACC_NAMES[:6]), names(0, 2)])
+        elif k == "import":
+            out.append(["import", rng.choice(ACC_IMPORTS)])
+        elif depth < 2:
+            body = gen_stmts(rng, depth + 1, False)
+            if k == "for":
+                out.append(["for", rng.choice(["i", "x", "n", "clients"]), names(0, 1), body])
+            elif k == "macro":
+                out.append(["macro", rng.choice(ACC_MACROS), rng.sample(["n", "x", "i", "shards"], rng.randrange(0, 3)), body])
+            else:
+                out.append(["with", rng.choice(["x", "n", "shards", "bulk_size"]), names(0, 2), body])
+    return out
+
+
+def stmts_to_jinja(stmts):
+    """output-free Jinja text for the abstraction"""
+    out = []
+    for st in stmts:
+        k, nm = st[0], st[1]
+        if k == "read":
+            out.append("{%% if %s %%}{%% endif %%}" % nm)
+        elif k == "import":
+            out.append('{%% import "lib.j2" as %s %%}' % nm)
+        elif k == "set":
+            out.append("{%% set %s = [%s7] | last %%}" % (nm, "".join("%s | default(0), " % r for r in st[2])))
+        elif k == "for":
+            out.append("{%% for %s in [%s1, 2] %%}%s{%% endfor %%}" % (nm, "".join("%s | default(0), " % r for r in st[2]), stmts_to_jinja(st[3])))
+        elif k == "macro":
+            out.append("{%% macro %s(%s) %%}%s{%% endmacro %%}" % (nm, ", ".join(st[2]), stmts_to_jinja(st[3])))
+        elif k == "with":
+            out.append("{%% with %s = [%s7] | last %%}%s{%% endwith %%}" % (nm, "".join("%s | default(0), " % r for r in st[2]), stmts_to_jinja(st[3])))
+    return "".join(out)
+
+
+def py_reads(stmts, enclosing=frozenset()):
+    """reference scope analysis, written from the statement with Jinja's compile-time name resolution: a scope reads a
+    name from the render context at its own level if the load precedes the scope's own binding of the name, and inside a
+    nested for/macro/with body if neither the body (so far) nor any enclosing scope (anywhere in it) binds the name"""
+    own = {st[1] for st in stmts if st[0] in ("set", "import", "macro")}
+    visible_inside = set(enclosing) | own
+    bound = set(enclosing)
+    reads = set()
+    for st in stmts:
+        k, nm = st[0], st[1]
+        if k == "read":
+            reads |= {nm} - bound
+        elif k == "import":
+            bound.add(nm)
+        elif k == "set":
+            reads |= set(st[2]) - bound
+            bound.add(nm)
+        elif k == "for":
+            reads |= set(st[2]) - bound
+            reads |= py_reads(st[3], visible_inside | {nm, "loop"})
+        elif k == "macro":
+            reads |= py_reads(st[3], visible_inside | set(st[2]))
+            bound.add(nm)
+        elif k == "with":
+            reads |= set(st[2]) - bound
+            reads |= py_reads(st[3], visible_inside | {nm})
+    return reads
+
+
+def bound_names(stmts):
+    out = set()
+    for st in stmts:
+        if st[0] in ("set", "import", "macro", "for", "with"):
+            out.add(st[1])
+        if st[0] == "macro":
+            out |= set(st[2])
+        if st[0] in ("for", "macro", "with"):
+            out |= bound_names(st[3])
+    return out
+
+
+def top_level_bound(stmts):
+    return {st[1] for st in stmts if st[0] in ("set", "import", "macro")}
+
+
+def gen_param_accounting(ctx):
+    rng = ctx.rng
+    for _ in range(ctx.budget):
+        main = gen_stmts(rng, 0, True)
+        part = gen_stmts(rng, 0, False) if rng.random() < 0.4 else None     # textually collected: part of the assembled source
+        body = gen_stmts(rng, 0, False) if rng.random() < 0.3 else None     # index body: a template of its own
+        inc_name = rng.choice(["only_in_include", "bulk_size", "shards"]) if rng.random() < 0.3 else None
+        assembled = main + (part or [])
+        shown = rng.choice([nm for nm in ACC_NAMES if nm != "loop"])
+        reads = py_reads(assembled + [["read", shown]]) | (py_reads(body) if body else set())
+        local_only = (bound_names(assembled) | (bound_names(body) if body else set())) - reads
+        cats = {}
+        for nm in reads:
+            cats[nm] = "bound-after-being-read" if nm in bound_names(assembled) else "really-read"
+        for nm in local_only:
+            cats[nm] = "locally-bound-only"
+        cats["never_mentioned"] = "unknown"
+        typo = sorted(reads)[0] + "s" if reads else "clientss"
+        if typo not in cats:
+            cats[typo] = "typo-of-a-read-name"
+        if inc_name and inc_name not in cats:
+            cats[inc_name] = "read-only-in-included-file"
+        user = {}
+        for nm in rng.sample(sorted(cats), min(len(cats), rng.choice([0, 1, 1, 2, 3]))):
+            user[nm] = rng.choice([11, 42, "uv"])
+        yield {"main": main, "part": part, "body": body, "include": inc_name, "shown": shown, "user": user,
+               "categories": {k: cats[k] for k in user}}
+
+
+def run_param_accounting(ctx, case):
+    import jinja2
+
+    from esrally.track import loader
+
+    main, part, body, inc = case["main"], case["part"], case["body"], case["include"]
+    head = stmts_to_jinja(main)
+    files = {"lib.j2": "{% macro noop() %}{% endmacro %}"}
+    if part is not None:
+        head += '{{ rally.collect(parts="head-parts/*.j2") }}'
+        files["head-parts/p.j2"] = stmts_to_jinja(part)
+    if inc:
+        head += '{% include "inc.txt" %}'
+        files["inc.txt"] = "{%% if %s %%}{%% endif %%}" % inc
+    spec = '{"description": "d={{ %s | default(\'D\') }}", %s"schedule": [{"operation": "force-merge"}]}' % (
+        case["shown"], '"indices": [{"name": "idx", "body": "idx-body.json"}], ' if body is not None else "")
+    files["track.json"] = head + "\n" + spec
+    if body is not None:
+        files["idx-body.json"] = stmts_to_jinja(body) + '{"settings": {}}'
+    user = case["user"]
+    impl = run_impl(files, user or None, None)
+    # what the accounting registers for the assembled track file (real function, public result)
+    env_globals = sorted(set(jinja2.Environment().globals) | set(loader.default_internal_template_vars()["globals"]))
+    assembled_stmts = main + (part or []) + [["read", case["shown"]]]
+    if "assembled" in impl:
+        ctp = loader.CompleteTrackParams()
+        loader.register_all_params_in_track(impl["assembled"], ctp)
+        real_reg = sorted(ctp.sorted_track_defined_params)
+        m = ctx.model("tracktemplate", "registered", {"template": assembled_stmts, "env_globals": env_globals})
+        if sorted(set(m["r"])) != real_reg:
+            ctx.diff("names registered for the assembled track", sorted(set(m["r"])), real_reg)
+    templates = [assembled_stmts] + ([body] if body is not None else [])
+    mu = ctx.model("tracktemplate", "unused", {"templates": templates, "env_globals": env_globals, "user": sorted(user)})
+    model_outcome = "ok" if not mu["r"] else "TrackConfigError"
+    if model_outcome != outcome(impl):
+        ctx.diff("outcome of the unused-parameter rule", model_outcome + " " + ",".join(mu["r"]), outcome(impl) + ": " + impl.get("msg", ""))
+    # direct oracle: accepted iff every supplied name is read from the render context by the assembled track or an index body
+    reads = py_reads(assembled_stmts) | (py_reads(body) if body is not None else set())
+    reads -= set(env_globals)
+    not_read = sorted(n for n in user if n not in reads)
+    if not_read and "ok" in impl:
+        cat = case["categories"].get(not_read[0], "?")
+        ctx.fail("unread-parameter-accepted:" + cat, f"the supplied parameter(s) {not_read} are not read from the render context anywhere "
+                 "(locally bound / unknown), yet the track loads silently", "TrackConfigError naming " + str(not_read), "loaded")
+    elif not_read and impl.get("err") != "TrackConfigError":
+        ctx.fail("wrong-error-class:unread-parameter", impl.get("msg", ""), "TrackConfigError", impl.get("err"))
+    elif not_read and not all(n in impl.get("msg", "") for n in not_read):
+        ctx.fail("unused-parameter-not-named", impl.get("msg", ""), str(not_read), impl.get("msg"))
+    elif not not_read and "err" in impl:
+        ctx.fail("read-parameter-rejected", f"all supplied parameters {sorted(user)} are read from the context: " + impl.get("msg", ""), "loaded", impl["err"])
+    elif not not_read:
+        # where a parameter is accepted it has an effect where it is read
+        shown = case["shown"]
+        if shown in top_level_bound(main + (part or [])):
+            exp = "d=7"
+        else:
+            exp = "d=" + str(user.get(shown, "D"))
+        if impl["ok"]["description"] != exp:
+            ctx.fail("accepted-parameter-without-effect", f"description reads {shown}", exp, impl["ok"]["description"])
+    for c in case["categories"].values():
+        ctx.count("supplied:" + c)
+    ctx.sig([sorted(set(case["categories"].values())), outcome(impl), part is not None, body is not None, inc is not None], nontrivial=bool(user))
+
+
+# ---------------------------------------------------------------------------------------------
 # malformed stream: schema *type* violations and broken templates (exception class only, no model)
 # ---------------------------------------------------------------------------------------------
 def typed_locations(spec):
@@ -2586,10 +2792,11 @@ def run_splitext(ctx, case):
 
 STREAMS = [
     Stream("valid_tracks", gen_valid, run_case, quick=1280, thorough=24000, shards=16),
-    Stream("rule_violations", gen_violations, run_case, quick=896, thorough=11200, shards=16),
-    Stream("schema_types", gen_schema_types, run_schema_types, quick=960, thorough=12000, shards=16),
-    Stream("assembly", gen_assembly, run_assembly, quick=1600, thorough=16000, shards=16),
-    Stream("param_scopes", gen_param_scopes, run_param_scopes, quick=700, thorough=14000, shards=4),
+    Stream("rule_violations", gen_violations, run_case, quick=912, thorough=11400, shards=16),
+    Stream("schema_types", gen_schema_types, run_schema_types, quick=800, thorough=12000, shards=16),
+    Stream("assembly", gen_assembly, run_assembly, quick=1200, thorough=16000, shards=16),
+    Stream("param_scopes", gen_param_scopes, run_param_scopes, quick=490, thorough=14000, shards=4),
+    Stream("param_accounting", gen_param_accounting, run_param_accounting, quick=900, thorough=12000, shards=16),
     Stream("malformed", gen_malformed, run_malformed, quick=504, thorough=8400, shards=8),
     Stream("operation_types", gen_optypes, run_optypes, quick=400, thorough=20000, shards=2),
     Stream("splitext", gen_splitext, run_splitext, quick=1000, thorough=40000, shards=2),
